@@ -345,6 +345,10 @@ class CacheSession(storeops.Session):
         r = self.rwa(fnkey, arg)
         ck = r.fn_reference.qualified_name + "/" + r.arg_hash
         resident = cache is not None and ck in cache.cache and cache.cache[ck].has_value
+        want0 = self.model.get(self.key(fnkey, arg))
+        if want0 is not None and values.is_partition_desc(want0["vdesc"]):
+            # a partition reads its members from the store when they are asked for, resident or not
+            return super().op_read(fnkey, arg)
         if resident:
             self.labels.add("read-resident")
             with fsaudit.Watch(s.root) as w:
@@ -380,9 +384,11 @@ def _inv_b(sess):
     cache = s.backend._memory_cache
     if cache is None:
         return
-    budget = cache.memory_cache_bytes
-    if any(len(e_before) for e_before in ()):
-        pass
+    # the budget is the one the store was configured with (the explicit argument, whatever a reused configuration dict says)
+    budget = s.budget_mb * 1024 * 1024
+    if cache.memory_cache_bytes != budget:
+        sess.fail(s, "budget-not-the-configured-one", "the store was created with memory_cache_mb=%r (construction: %s) but its cache allows %r bytes" % (
+            s.budget_mb, s.construct, cache.memory_cache_bytes), domain="B")
     for sym, msg in account_invariants(cache, budget):
         sess.fail(s, sym, msg, domain="B")
     if not sess.model and not cache.cache and cache.memory_usage != 0:
